@@ -20,8 +20,23 @@ SPEC = {
                       "and FixedVArray are compared with nested lists for every index and forward slice of one dimension, and StringArray for "
                       "every store history over all interning orders. (5) memoryview export and the ...ArrayFromBuffer constructors are run for "
                       "every exporting class and every source type/length, each case in its own forked child so that a crash is an observed "
-                      "outcome. The thorough tier repeats the exploration under an AddressSanitizer build of the module.",
-        "level_note": "Bounded: lengths <= 5 (1-D), <= 3 per dimension (2-D, matrix, V-array), histories of depth 4 (quick) / 5 (thorough) on an array of "
+                      "outcome. The thorough tier repeats the exploration under an AddressSanitizer build of the module. "
+                      "(1') Integer indices and slice bounds/steps of magnitude 2^31..2^64 (values that fit a C int, only a Py_ssize_t, or neither) are "
+                      "tried on every 1-D class and on FixedArray2D / FixedMatrix / FixedVArray and its size helper: every one must raise (or clamp, "
+                      "for slices) and change nothing. Masks with non-zero entries other than 1 (2, -1, INT_MIN) and mask arrays that are strided "
+                      "component views, masked references or read-only select by `entry != 0`. (1b) Component views (.x .y .z .w, .r .g .b .a, Quat "
+                      ".r .x .y .z, Box .min .max and their components) of every array AND of every masked reference of it, writable and read-only: "
+                      "reads, bounds, element and slice stores against a per-component model. (1c) Stores and in-place operators whose source "
+                      "aliases the target (all mask pairs a[m1]=a[m2], slices from masked references of the target, masked-reference targets, copy-"
+                      "constructed aliases, FixedVArray mask pairs and forward slices): the right-hand side is read completely before anything is "
+                      "stored, as on a Python list; the history search also takes live handles as sources. (2b) Every callable member of every "
+                      "class is called on read-only receivers (array, masked reference, copy-constructed handle, component view) with every "
+                      "argument tuple of length <= 2 over 11 typed arguments: the read-only contents must never change; a writable twin counts "
+                      "the mutating calls. (3') Component views of arrays, of masked references, of copies and of FixedVArray rows join the "
+                      "ownership scenarios; after every release the heap is recycled with same-size arrays so that a stale view reads wrong also "
+                      "without a sanitizer. (4') FixedArray2D a[mask]=array1d (full, compressed, wrong lengths), ifelse(mask, scalar) values. "
+                      "(5') memoryview of a masked reference with a sparse mask and of a component view of one.",
+        "level_note": "Bounded: lengths <= 5 (1-D; <= 4 in the quick aliasing / component stages), <= 3 per dimension (2-D, matrix, V-array), histories of depth 4 (quick) / 5 (thorough) on an array of "
                       "length 3 with at most 4 live handles, 3 objects per ownership scenario; element values are small integers. Elements are observed "
                       "through integer __getitem__ and repr(). The liveness oracle relies on which view kinds borrow storage, read off the anchored "
                       "code. In the plain build an out-of-bounds access that does not crash is invisible; the ASan pass covers that on the quick bounds.",
@@ -29,7 +44,9 @@ SPEC = {
         "rule": "exhaustive enumeration over the stated small scopes plus explicit-state BFS over operation histories; states = array configurations, "
                 "distinct history states, release schedules and buffer cases; non-trivial = classes counted by a predicate on the input: negative / "
                 "out-of-range indices, zero-step / negative-step / clamped / empty slices, wrong-length and mixed masks, operations through "
-                "read-only handles, expected rejections, owner-released-before-view schedules, mismatching / oversize / non-contiguous buffer sources",
+                "read-only handles, expected rejections, owner-released-before-view schedules, mismatching / oversize / non-contiguous buffer sources, "
+                "indices beyond int / Py_ssize_t, non-binary and strided / masked / read-only masks, mixed masks under component views, aliasing stores "
+                "with a read-after-write hazard, mutating members on read-only receivers",
         "assumptions": ["CPython 3.11 (/usr/bin/python3.11) and Boost.Python 1.83; module built with the repository's CMake files (-DPYTHON=ON, Release)",
                         "copy construction Array(a) shares a's storage (C++ copy constructor semantics of FixedArray); the writable flag belongs to the handle"],
     }
